@@ -13,7 +13,7 @@ package distance
 //@ spec orSum(x []uint64, y []uint64, n int) int = ite(n <= 0, 0, orSum(x, y, n-1) + popcnt(x[n-1] | y[n-1]))
 
 //@ func hammingDistance
-//@   property C20
+//@   property C20 C03 C04
 //@   arith bv
 //@   requires len(y) >= len(x)
 //@   ensures sameFloat(result, float32(hamSum(x, y, len(x))))
@@ -21,7 +21,7 @@ package distance
 //@   loop 1 invariant dist == hamSum(x, y, rangeindex+1)
 
 //@ func jaccardDistance
-//@   property C20
+//@   property C20 C03 C04
 //@   arith bv
 //@   requires len(y) >= len(x)
 //@   ensures orSum(x, y, len(x)) == 0 ==> result == 0
@@ -46,7 +46,7 @@ package distance
 //@ spec sqFold(x []float32, y []float32, n int) float32 = ite(n <= 0, 0, sqFold(x, y, n-1) + (x[n-1]-y[n-1])*(x[n-1]-y[n-1]))
 
 //@ func dotProductPureGo
-//@   property C20
+//@   property C20 C03 C04
 //@   arith bv
 //@   requires len(y) >= len(x)
 //@   ensures sameFloat(result, dotFold(x, y, len(x)))
@@ -54,7 +54,7 @@ package distance
 //@   loop 1 invariant sameFloat(sum, dotFold(x, y, rangeindex+1))
 
 //@ func squaredEuclideanDistancePureGo
-//@   property C20
+//@   property C20 C03 C04
 //@   arith bv
 //@   requires len(y) >= len(x)
 //@   ensures sameFloat(result, sqFold(x, y, len(x)))
